@@ -59,9 +59,10 @@ func parseClusterNodes(data string) (map[string]*instance, error) {
 			continue
 		}
 
-		// attach slots to master node
+		// attach slots to master node, a master which owns no slot (e.g. a
+		// node just added to the cluster) has none to attach.
 		if len(fields) < 9 {
-			return nil, errInvalidClusterNodes
+			continue
 		}
 		slots, err := parseClusterNodesSlot(fields[8:])
 		if err != nil {
